@@ -129,10 +129,13 @@ static MPT_STRUCT(buffer) *_mpt_buffer_alloc_detach(MPT_STRUCT(buffer) *ptr, siz
 	if (buf->_ref._val > 1) {
 		const MPT_STRUCT(buffer) *src = &buf->buf;
 		size_t used = src->_used;
+		long set;
 		if (used > len) {
 			used = len;
 		}
-		if (mpt_buffer_set(next, src->_content_traits, 0, src + 1, used) < 0) {
+		/* raw copy reports zero, typed copy number of copied elements */
+		set = mpt_buffer_set(next, src->_content_traits, 0, src + 1, used);
+		if (set < 0 || (traits && (size_t) set < (used / traits->size))) {
 			_mpt_buffer_alloc_unref(next);
 			return 0;
 		}
